@@ -180,8 +180,8 @@ func run(c *vh.Ctx) {
 	var jobs []job
 	for pi, pr := range parrots {
 		for si, sc := range scs {
-			// quick tier: the legacy servers, the honest ones and the sentinel-forcing ones always; the rest rotates
-			always := strings.HasPrefix(sc.name, "legacy-") || strings.HasPrefix(sc.name, "honest-") || strings.HasSuffix(sc.name, "canary-tls12")
+			// quick tier: the legacy servers, honest 1.2/1.3 servers and the forced 1.2 sentinel always; the rest rotates with the seed
+			always := strings.HasPrefix(sc.name, "legacy-") || sc.name == "honest-max1.2" || sc.name == "honest-max1.3" || sc.name == "force1.2-canary-tls12"
 			if c.Tier == "quick" && !always && (pi+si+int(c.Seed))%3 != 0 {
 				continue
 			}
